@@ -1,13 +1,15 @@
 #!/bin/bash
 # tools/intake_seed.sh <ID> [extra check ids]  -- take the deliverables of a seeding sub-agent from /tmp/seedout/<ID>,
 # confirm them (demo with/without, suite) and run the property's check (+ extra checks) against them.
+# The new seeds get the next free indices under seeded/<ID>-<n>.
 id=$1; shift
 cd "$(dirname "$0")/.."
 for n in "" 2; do
   src=/tmp/seedout/$id
   [ -f $src/patch$n.diff ] || continue
-  d=seeded/$id-${n:-1}; mkdir -p $d
+  k=1; while [ -d seeded/$id-$k ]; do k=$((k+1)); done
+  d=seeded/$id-$k; mkdir -p $d
   cp $src/patch$n.diff $d/patch.diff; cp $src/demo$n.py $d/demo.py; cp $src/meta$n.json $d/meta.agent.json 2>/dev/null
-  tools/confirm_seed.sh ${id}_p${n:-1} $PWD/$d/patch.diff $PWD/$d/demo.py 2>&1 | grep CONFIRM
-  tools/try_seed.sh $id-${n:-1} $PWD/$d/patch.diff $id "$@" 2>&1 | grep "^SEED"
+  tools/confirm_seed.sh ${id}_p$k $PWD/$d/patch.diff $PWD/$d/demo.py 2>&1 | grep CONFIRM
+  tools/try_seed.sh $id-$k $PWD/$d/patch.diff $id "$@" 2>&1 | grep "^SEED"
 done
